@@ -1,6 +1,6 @@
 (* C09 — exported theorems only: each is closed by [exact] and followed by Print Assumptions. *)
 From Coq Require Import List ZArith Bool.
-From Verif Require Import C09.Model C09.Spec C09.Proofs_Agg C09.Proofs_Float C09.Proofs_Mono C09.Proofs.
+From Verif Require Import C09.Model C09.Spec C09.Proofs_Agg C09.Proofs_Float C09.Proofs_Mono C09.Proofs C09.Proofs_Mid.
 Import ListNotations.
 Open Scope Z_scope.
 
@@ -112,6 +112,26 @@ Theorem c09_zone : forall b n zs, forallb zone_nonneg zs = true ->
   forall i, zones_spec false b n i zs (zones_out b n i zs).
 Proof. exact zones_out_spec. Qed.
 Print Assumptions c09_zone.
+
+(* --- the mid tier --- *)
+Theorem c09_mid_le_threshold : forall m, 0 <= m_cap_cpu m -> 0 <= m_cap_mem m ->
+  mid_ok (mid_thr_cpu m) (mid_bound_cpu m) (mid_cpu m) /\
+  mid_ok (mid_thr_mem m) (mid_bound_mem m) (mid_mem m).
+Proof. exact (fun m H1 H2 => conj (mid_cpu_ok m H1) (mid_mem_ok m H2)). Qed.
+Print Assumptions c09_mid_le_threshold.
+
+Theorem c09_mid_holds : forall m, minput_wf m = true ->
+  mid_holds m (run_mid m) /\ mid_code m (run_mid m) = 0.
+Proof. exact run_mid_holds. Qed.
+Print Assumptions c09_mid_holds.
+
+Theorem c09_mid_code_sound : forall m obs, mid_code m obs = 0 -> mid_holds m obs.
+Proof. exact mid_code_sound. Qed.
+Print Assumptions c09_mid_code_sound.
+
+Theorem c09_mid_degrade : forall m, mstale m = true -> run_mid m = withdrawn.
+Proof. exact run_mid_stale. Qed.
+Print Assumptions c09_mid_degrade.
 
 (* --- non-vacuity --- *)
 Example c09_wf_inhabited : input_wf witness_request_sys = true.
